@@ -72,7 +72,9 @@ class FlagTrue(int):
 
 HOSTILE = [
     ('amp', '&'), ('lt', '<'), ('gt', '>'), ('dq', '"'), ('sq', "'"), ('all', 'a<b>&"\'c'), ('cdata-end', 'x]]>y'),
-    ('comment-end', 'x-->y'), ('pi-end', 'x?>y<z a="1">'), ('entity-amp', '&amp;'), ('entity-num', '&#38;&#x3c;'), ('entity-bogus', '&bogus; &lt'),
+    ('comment-end', 'x-->y'), ('pi-end', 'x?>y<z a="1">'),
+    # compatibility characters: they are not markup, and must come back as they are (no normalisation on the way)
+    ('fullwidth', '\uff1cscript\uff1e\uff06\uff02\uff07 \ufb01 \u2460'), ('small-forms', '\ufe64b\ufe65 \ufe60'), ('entity-amp', '&amp;'), ('entity-num', '&#38;&#x3c;'), ('entity-bogus', '&bogus; &lt'),
     ('tag', '<script>alert(1)</script>'), ('attr-break', '" onmouseover="x'), ('attr-break-sq', "' onmouseover='x"),
     ('nul', 'a\x00b<'), ('nonascii', 'é<日>'), ('newline', 'a\n<b'), ('bytes', b'by<&>"\''), ('strsub', StrSub('s<u"b\'')),
     ('int', 7), ('float', 2.5), ('bool', True), ('obj', exprs.Obj('O<&>"\'')), ('message', Message('m<&>"\'')),
